@@ -136,7 +136,7 @@ func main() {
 	var jobs []job
 	hn := vlib.Pick(c, []string{"M6x1", "unc_1/4", "M64x6", "unf_4_48", "M1x0.2"}, names)
 	for _, n := range hn {
-		for _, st := range []int{1, -1, 2, -2, 3} {
+		for _, st := range vlib.Pick(c, []int{1, -1, 2, -2, 3}, []int{1, -1, 2, -2, 3, -3, 4}) {
 			jobs = append(jobs, job{name: n, starts: st, kind: "helix"})
 		}
 	}
@@ -181,13 +181,14 @@ func main() {
 			}
 			tol := 1e-9 * (r + p)
 			var n int64
-			for ir := 0; ir <= 12; ir++ {
-				rr := r - 1.1*h + (1.4*h)*float64(ir)/12
+			nrH := vlib.Pick(c, 12, 24)
+			for ir := 0; ir <= nrH; ir++ {
+				rr := r - 1.1*h + (1.4*h)*float64(ir)/float64(nrH)
 				if rr <= 0 {
 					continue
 				}
-				for ip := 0; ip < 12; ip++ {
-					ph := 2 * math.Pi * (float64(ip) + 0.37) / 12
+				for ip := 0; ip < vlib.Pick(c, 12, 24); ip++ {
+					ph := 2 * math.Pi * (float64(ip) + 0.37) / float64(vlib.Pick(c, 12, 24))
 					for iz := -24; iz <= 24; iz++ {
 						z := p * float64(iz) / 24 * 2
 						f0 := s.Evaluate(cyl(rr, ph, z))
